@@ -104,6 +104,7 @@ type Engine struct {
 	curItem          map[*Interp]*ssa.Function
 	errLines         []string
 	forks            map[string]int
+	SolverFor        map[string]string
 	built            sync.Map
 	buildMu          sync.Mutex
 	errT             types.Type
@@ -270,19 +271,17 @@ func (e *Engine) Run(harnesses []*ssa.Function) {
 		wg.Add(1)
 		go func(id int) {
 			defer wg.Done()
-			sol, err := NewSolver(e.Cfg.Solver, e.Cfg.TimeoutMs)
-			if err != nil {
-				fmt.Fprintln(os.Stderr, "solver start:", err)
-				return
-			}
+			sols := map[string]*Solver{}
 			defer func() {
-				e.mu.Lock()
-				e.solverT += sol.Time
-				e.solverQ += sol.Queries
-				e.mu.Unlock()
-				sol.Close()
+				for _, sol := range sols {
+					e.mu.Lock()
+					e.solverT += sol.Time
+					e.solverQ += sol.Queries
+					e.mu.Unlock()
+					sol.Close()
+				}
 			}()
-			in := &Interp{E: e, sol: sol, funcsHit: map[*ssa.Function]bool{}}
+			in := &Interp{E: e, funcsHit: map[*ssa.Function]bool{}}
 			for {
 				e.mu.Lock()
 				for len(e.stack) == 0 && e.active > 0 && !e.stop {
@@ -308,6 +307,24 @@ func (e *Engine) Run(harnesses []*ssa.Function) {
 					e.cond.Broadcast()
 					break
 				}
+				sname := e.Cfg.Solver
+				if o, ok := e.SolverFor[it.h.Name()]; ok && o != "" {
+					sname = o
+				}
+				if sols[sname] == nil {
+					sol, err := NewSolver(sname, e.Cfg.TimeoutMs)
+					if err != nil {
+						fmt.Fprintln(os.Stderr, "solver start:", err)
+						e.mu.Lock()
+						e.res(it.h.Name()).Aborts["cannot start solver "+sname]++
+						e.active--
+						e.mu.Unlock()
+						e.cond.Broadcast()
+						continue
+					}
+					sols[sname] = sol
+				}
+				in.sol = sols[sname]
 				in.runPath(it)
 				e.mu.Lock()
 				e.active--
